@@ -508,6 +508,7 @@ type Contract struct {
 	AtCalls  []AtCall // ghost assertions checked in the state just before a call to a named callee
 	Dynamic  map[string]string // parameter of interface type -> concrete type it is verified for (devirtualised method calls)
 	Strings  bool     // use the SMT string theory for Go strings in this function's conditions
+	Bytes    bool     // byte-level string model: string (in)equality is extensional over length and bytes
 	Opaque   []string // spec functions treated as uninterpreted in this function's conditions
 	Footprint []*Node // objects whose fields (of the maps in Modifies) may change; all others keep theirs
 	Abstract []*Node // nonlinear terms replaced by fresh constants in a first proof attempt
@@ -548,6 +549,14 @@ type Lemma struct {
 	File    string
 }
 
+// Pin ties the assumed `global` facts about a package-level variable to the
+// text of its initialiser.
+type Pin struct {
+	PkgPath string
+	Var     string
+	Text    string
+}
+
 type GlobalAssume struct {
 	PkgPath string
 	Expr    *Node
@@ -567,6 +576,7 @@ type ContractSet struct {
 	Specs   map[string]*SpecFunc
 	Lemmas  []*Lemma
 	Globals []GlobalAssume
+	Pins    []Pin
 	Order   []string
 }
 
@@ -805,6 +815,15 @@ func (cs *ContractSet) LoadContractFile(path, pkgPath string) error {
 				return fail(err)
 			}
 			cs.Globals = append(cs.Globals, GlobalAssume{PkgPath: pkgPath, Expr: e, Src: rest})
+		case "pin":
+			// pin <var> <initialiser text>: the `global` facts about <var> describe this
+			// initialiser; if the source no longer reads so, the pin obligation fails
+			cur = nil
+			f := strings.SplitN(strings.TrimSpace(rest), " ", 2)
+			if len(f) != 2 {
+				return fail(fmt.Errorf("pin needs: pin <var> <initialiser text>"))
+			}
+			cs.Pins = append(cs.Pins, Pin{PkgPath: pkgPath, Var: f[0], Text: strings.TrimSpace(f[1])})
 		case "func":
 			c, err := parseFuncHeader(l, "", pkgPath)
 			if err != nil {
@@ -897,6 +916,11 @@ func (cs *ContractSet) LoadContractFile(path, pkgPath string) error {
 				return fail(fmt.Errorf("strings outside func"))
 			}
 			cur.Strings = true
+		case "bytes":
+			if cur == nil {
+				return fail(fmt.Errorf("bytes outside func"))
+			}
+			cur.Bytes = true
 		case "opaque-default":
 			// applies to every function contract that follows in this file
 			fileOpaque = append(fileOpaque, strings.Fields(strings.ReplaceAll(rest, ",", " "))...)
